@@ -103,6 +103,8 @@ func c04Run(c Case) (Result, error) {
 	}
 	one, _ := crypto.DecodePrivateKey(crypto.BLSBLS12381, fixed(big.NewInt(1), 32))
 	hEnc, _ := one.Sign(msg, hs)
+	idEnc := crypto.IdentityBLSPublicKey().Encode()
+	idSig := append([]byte{0xC0}, make([]byte, 47)...)
 	aggSk, err := crypto.AggregateBLSPrivateKeys(sks)
 	if err != nil {
 		return Result{}, err
@@ -164,6 +166,29 @@ func c04Run(c Case) (Result, error) {
 			if err != nil || !rem.Equals(pa) || !bytes.Equal(rem.Encode(), pa.Encode()) {
 				fail(fmt.Sprintf("Remove(Agg(A+B),B) != Agg(A) at cut %d", c2))
 			}
+			// ... as a key OBJECT too: it verifies what Agg(A) verifies (a cached identity flag that does
+			// not match the point shows here, not in Equals / Encode)
+			if err == nil {
+				partSig, _ := crypto.AggregateBLSSignatures(sigs[:c2])
+				remIsId := bytes.Equal(rem.Encode(), idEnc)
+				if ok, e := rem.Verify(partSig, msg, hs); e != nil || ok == remIsId {
+					fail(fmt.Sprintf("Remove(Agg(A+B),B) at cut %d: signature of A's keys verifies=%v, key is identity=%v", c2, ok, remIsId))
+				}
+				if ok, _ := rem.Verify(idSig, msg, hs); ok {
+					fail(fmt.Sprintf("Remove(Agg(A+B),B) at cut %d accepts the identity signature", c2))
+				}
+			}
+		}
+	}
+	// removing every key leaves the identity KEY (which verifies nothing, not even the identity signature)
+	if all, err := crypto.RemoveBLSPublicKeys(aggPk, pks); err != nil || !bytes.Equal(all.Encode(), idEnc) {
+		fail("Remove(Agg(A),A) is not the identity key")
+	} else {
+		if ok, _ := all.Verify(idSig, msg, hs); ok {
+			fail("Remove(Agg(A),A) accepts the identity signature")
+		}
+		if !all.Equals(crypto.IdentityBLSPublicKey()) {
+			fail("Remove(Agg(A),A) is not Equal to the identity key")
 		}
 	}
 	same, err := crypto.RemoveBLSPublicKeys(aggPk, nil)
